@@ -1,11 +1,182 @@
 import TdVerif.Sexp
+import TdVerif.Model.C08Lazy
 
 namespace TdVerif.Drive
-open TdVerif Sexp
+open TdVerif Sexp TdVerif.C08
 
-/-- line-protocol handler for C08: commands are named `c08.<something>` -/
+namespace C08D
+
+def shapeOf? : Sexp → Option Shape
+  | .list (.atom _ :: l) => nats? l
+  | _ => none
+
+/-- `(int 3)` `(slice a b c)` `none` `ell` `(tens (shape ..) (vals ..))` `(mask (shape ..) (vals 0 1 ..))` -/
+def ixOf? : Sexp → Option Ix
+  | .atom "none" => some .none
+  | .atom "ell" => some .ell
+  | .list [.atom "int", i] => (asInt? i).map .int
+  | .list [.atom "slice", a, b, c] => do
+      pure (.slice (← asOptInt? a) (← asOptInt? b) (← asOptInt? c))
+  | .list [.atom "tens", sh, .list (.atom "vals" :: vs)] => do
+      let sh ← shapeOf? sh
+      let vs ← ints? vs
+      pure (.tens (T.ofList sh vs))
+  | .list [.atom "mask", sh, .list (.atom "vals" :: vs)] => do
+      let sh ← shapeOf? sh
+      let vs ← ints? vs
+      pure (.mask (T.ofList sh (vs.map (· != 0))))
+  | _ => none
+
+def ixsOf? : Sexp → Option (List Ix)
+  | .list (.atom "ix" :: l) => l.mapM ixOf?
+  | _ => none
+
+/-- `(feats (a) (b 2) (n.c 1 2))` : key and feature shape -/
+def featsOf? : Sexp → Option (List (String × Shape))
+  | .list (.atom "feats" :: l) => l.mapM fun
+      | .list (.atom k :: f) => (nats? f).map fun f => (k, f)
+      | _ => none
+  | _ => none
+
+def memberBase (nkeys i j : Nat) : Int := (((i * nkeys + j) * 10000 : Nat) : Int)
+
+/-- member `i` of the test stack: provenance leaves `base + arange(numel)` of shape `bs ++ feat` -/
+def mkMember (bs : Shape) (feats : List (String × Shape)) (i : Nat) : TD Int :=
+  { batch := bs, keys := feats.map (·.1),
+    leaf := fun k =>
+      match feats.findIdx? (·.1 == k) with
+      | some j => T.arange (memberBase feats.length i j) (bs ++ ((feats[j]?.map (·.2)).getD []))
+      | none => default }
+
+def mkLazy (bs : Shape) (n sd : Nat) (feats : List (String × Shape)) : Lazy Int :=
+  ⟨(List.range n).map (mkMember bs feats), sd⟩
+
+/-- operand `j` of a cat: same provenance scheme shifted by `j * 1000000` -/
+def mkOperand (bs : Shape) (n sd : Nat) (feats : List (String × Shape)) (j : Nat) : Lazy Int :=
+  ⟨(List.range n).map fun i =>
+      let m := mkMember bs feats i
+      { m with leaf := fun k => let t := m.leaf k; { t with get := fun c => t.get c + (j * 1000000 : Nat) } }, sd⟩
+
+def tdToSexp (m : TD Int) : List Sexp :=
+  [tagged "bs" (m.batch.map ofNat),
+   tagged "leaves" (m.keys.map fun k =>
+     .list [.atom k, tagged "shape" ((m.leaf k).shape.map ofNat), tagged "vals" ((m.leaf k).toList.map ofInt)])]
+
+def resToSexp : Option (LRes Int) → Sexp
+  | none => tagged "err" []
+  | some (.member m) => tagged "ok" (tagged "kind" [.atom "member"] :: tdToSexp m)
+  | some (.lazy L) =>
+      tagged "ok" (tagged "kind" [.atom "lazy", ofNat L.sd, ofNat L.members.length] :: tdToSexp (absL L))
+  | some (.empty b) => tagged "ok" [tagged "kind" [.atom "empty"], tagged "bs" (b.map ofNat)]
+  | some (.lazy2 sd rows) =>
+      tagged "ok" (tagged "kind" [.atom "lazy2", ofNat sd, ofNat rows.length] :: tdToSexp (absR (.lazy2 sd rows)))
+
+/-- the value written by the write stream: provenance leaves `500000 + 10000*j + arange` of shape `ibs ++ feat` -/
+def mkValue (ibs : Shape) (feats : List (String × Shape)) : TD Int :=
+  { batch := ibs, keys := feats.map (·.1),
+    leaf := fun k =>
+      match feats.findIdx? (·.1 == k) with
+      | some j => T.arange (500000 + 10000 * (j : Int)) (ibs ++ ((feats[j]?.map (·.2)).getD []))
+      | none => default }
+
+def membersToSexp : Option (Lazy Int) → Sexp
+  | none => tagged "err" []
+  | some L => tagged "ok" (tagged "sd" [ofNat L.sd] :: L.members.map fun m => tagged "member" (tdToSexp m))
+
+def boolS (b : Bool) : Sexp := .atom (if b then "true" else "false")
+
+def splitToSexp : Option SplitSt → Sexp
+  | none => tagged "err" []
+  | some st => tagged "ok" [tagged "num_single" [ofInt st.numSingle], tagged "num_none" [ofNat st.numNone],
+      tagged "num_squash" [ofNat st.numSquash], tagged "isinteger" [boolS st.isInteger],
+      tagged "has_bool" [boolS st.hasBool], tagged "is_nd_tensor" [boolS st.isNd],
+      tagged "split_dim" [if st.hasBool then ofInt st.splitDim else .atom "na"],
+      tagged "mask_loc" [if st.hasBool then ofNat st.maskLoc else .atom "na"],
+      tagged "mask_dim" [if st.hasBool then ofNat st.maskDim else .atom "na"]]
+
+end C08D
+
+open C08D in
+/-- line-protocol handler for C08 -/
 def handleC08 (cmd : String) (args : List Sexp) : Option Sexp :=
   match cmd, args with
+  -- (c08.spec (shape 2 3) (ix ...)) : torch-spec indexing of arange(shape)
+  | "c08.spec", [sh, ix] => do
+      let sh ← shapeOf? sh
+      let ix ← ixsOf? ix
+      match idxShape ix sh with
+      | none => pure (tagged "err" [])
+      | some s =>
+        let r := idxT ix (T.arange 0 sh)
+        pure (tagged "ok" [tagged "shape" (s.map ofNat), tagged "vals" (r.toList.map ofInt)])
+  -- (c08.get (bs ..) n sd (feats ..) (ix ..))
+  | "c08.get", [bs, n, sd, feats, ix] => do
+      let bs ← shapeOf? bs
+      let n ← asNat? n
+      let sd ← asNat? sd
+      let feats ← featsOf? feats
+      let ix ← ixsOf? ix
+      pure (resToSexp (lazyGet (mkLazy bs n sd feats) ix))
+  -- dense spec on the stacked members: (c08.dense (bs ..) n sd (feats ..) (ix ..))
+  | "c08.dense", [bs, n, sd, feats, ix] => do
+      let bs ← shapeOf? bs
+      let n ← asNat? n
+      let sd ← asNat? sd
+      let feats ← featsOf? feats
+      let ix ← ixsOf? ix
+      match (absL (mkLazy bs n sd feats)).getitem ix with
+      | none => pure (tagged "err" [])
+      | some m => pure (tagged "ok" (tdToSexp m))
+  -- (c08.set (bs ..) n sd (feats ..) (ix ..)) : members after `lazy[ix] = value`
+  | "c08.set", [bs, n, sd, feats, ix] => do
+      let bs ← shapeOf? bs
+      let n ← asNat? n
+      let sd ← asNat? sd
+      let feats ← featsOf? feats
+      let ix ← ixsOf? ix
+      let L := mkLazy bs n sd feats
+      match (convertEllipsis ix L.batch.length).bind fun ix' => idxShape ix' L.batch with
+      | none => pure (tagged "err" [])
+      | some ibs => pure (membersToSexp (lazySet L ix (mkValue ibs feats)))
+  -- (c08.shape (bs ..) n sd (feats ..) (unsqueeze d) | (squeeze d) | (transpose a b) | (permute d ..) | (unbind d))
+  | "c08.shape", [bs, n, sd, feats, .list (.atom op :: args)] => do
+      let bs ← shapeOf? bs
+      let n ← asNat? n
+      let sd ← asNat? sd
+      let feats ← featsOf? feats
+      let args ← ints? args
+      let L := mkLazy bs n sd feats
+      match op, args with
+      | "unsqueeze", [d] => pure (resToSexp ((lazyUnsqueeze L d).map .lazy))
+      | "squeeze", [d] => pure (resToSexp (lazySqueeze L d))
+      | "transpose", [a, b] => pure (resToSexp ((lazyTranspose L a b).map .lazy))
+      | "permute", ds => pure (resToSexp ((lazyPermute L ds).map .lazy))
+      | "unbind", [d] =>
+          let r : Int := L.batch.length
+          let nd : Int := if d < 0 then r + d else d
+          if nd < 0 ∨ nd ≥ r then pure (tagged "err" [])
+          else pure (tagged "seq" ((lazyUnbind L nd.toNat).map fun x => resToSexp (some x)))
+      | _, _ => none
+  -- (c08.cat sd dim (feats ..) (op (bs ..) n) (op (bs ..) n) ..) : torch.cat of lazy stacks, no out=
+  | "c08.cat", sd :: dim :: feats :: ops => do
+      let sd ← asNat? sd
+      let dim ← asInt? dim
+      let feats ← featsOf? feats
+      let ops ← ops.mapM fun
+        | .list [.atom "op", bs, n] => do pure ((← shapeOf? bs), (← asNat? n))
+        | _ => none
+      let Ls := (List.range ops.length).map fun j =>
+        match ops[j]? with
+        | some (bs, n) => mkOperand bs n sd feats j
+        | none => mkOperand [] 0 sd feats j
+      pure (resToSexp ((lazyCat Ls dim).map .lazy))
+  | "c08.split", [bs, n, sd, ix] => do
+      let bs ← shapeOf? bs
+      let n ← asNat? n
+      let sd ← asNat? sd
+      let ix ← ixsOf? ix
+      let L := mkLazy bs n sd [("a", [])]
+      pure (splitToSexp ((convertEllipsis ix L.batch.length).bind (splitIndex L)))
   | _, _ => none
 
 end TdVerif.Drive
